@@ -141,6 +141,17 @@ def trace_obligations(ctx):
             if name not in ("X", "CNOT", "TOFFOLI"):
                 attempt("lvl2", lvl2)
 
+            # EXACT mode (phase 1 for all parameter values?): the classes for which "decompose
+            # the bare gate and attach the controls" would be right (QV/Props/C08d.lean)
+            if name not in ("X", "CNOT"):
+                def exact():
+                    qs = list(range(info.nq))
+                    g = info.make(qs, P0)
+                    dec = std(g) if intab else g.decompose()
+                    tab.ob_product(f"C08_exact_{name}", k, info.nq, [qgates.sgate_of(x) for x in dec],
+                                   [qgates.sgate_of(info.make(qs, P0))], phase=False, gate=name, probe=True)
+                attempt("exact", exact)
+
             if k:
                 def upd():
                     qs = list(range(info.nq))[::-1]
@@ -207,12 +218,46 @@ def trace_obligations(ctx):
         "      runCircuit (is.flatMap QV.Props.C08.decInst) ψ x = c * runCircuit (is.map QV.Props.C08.refInst) ψ x",
         "QV.Props.C08.T08_decompose_of_classes C08_classes C08_classes_ok",
         needs=["C08_classes_ok"], imports=["QV.Props.C08c"])
+    # glue (QV/Props/C08d.lean, C08e.lean): attach-controls is exact for the classes whose exact
+    # obligation holds; Circuit.decompose(*free) over the generated class table
+    exact_names = [n for n, _, m in tab.obs if m.get("probe") and m.get("run")]
+    for n in exact_names:
+        tab.corollary(f"{n}_both", f"QV.Props.C08.ExactClass o_{n}", f"⟨{n}_single, rfl⟩", needs=[f"{n}_single"], imports=["QV.Props.C08d"])
+    tab.class_table("C08_exact_classes", "QV.Props.C08.ExactClass", [(n, f"{n}_both") for n in exact_names])
+    tab.corollary(
+        "C08_attach_controls_exact",
+        "∀ o ∈ C08_exact_classes, ∀ (θ : Nat → ℝ) (σ τ : Nat → Nat), (∀ q, σ (τ q) = q) → (∀ q, τ (σ q) = q) →\n"
+        "    ∀ cs : List Nat, QV.Props.C08.ControlsOff cs (relabelCircuit σ (o.lsRun θ)) → ∀ (ψ : Lab → ℂ) (x : Lab),\n"
+        "      runCircuit ((relabelCircuit σ (o.lsRun θ)).map (MGate.ctrl cs)) ψ x\n"
+        "        = applyGate (((o.refGate.toMGate θ).relabel σ).ctrl cs) ψ x",
+        "fun o ho θ σ τ h1 h2 cs hd ψ x =>\n"
+        "    QV.Props.C08.T08_attach_of_exact_classes C08_exact_classes C08_exact_classes_ok o ho θ σ τ h1 h2 cs hd ψ x",
+        needs=["C08_exact_classes_ok"], imports=["QV.Props.C08d"])
+    tab.corollary(
+        "C08_decompose_circuit_free",
+        "∀ (ut : Bool) (free : List Nat) (queue : List QV.Props.C08.QEntry),\n"
+        "    (∀ e ∈ queue, e.Admissible C08_classes free) →\n"
+        "    ∃ out, QV.Props.C08.decomposeQueue ut free queue = some out ∧ ∃ c : ℂ, ‖c‖ = 1 ∧ ∀ (ψ : Lab → ℂ) (x : Lab),\n"
+        "      runCircuit out ψ x = c * runCircuit (queue.map QV.Props.C08.QEntry.ref) ψ x",
+        "QV.Props.C08.T08_circuit_free C08_classes C08_classes_ok",
+        needs=["C08_classes_ok"], imports=["QV.Props.C08e"])
     status, passed = tab.emit()
     ctx.stats["classes_in_generated_decompose_circuit"] = len([c for c in tab.cor_names if c.endswith("_single") and c.startswith(("C08_dec_", "C08_tab_", "C08_cur_", "C08_grbs_"))])
+    exact_yes, exact_no = [], []
     for name, expr, meta in tab.obs:
         ok, sup = status.get(name, (False, False))
+        if meta.get("probe"):
+            # a census, not a requirement: a decomposition may hold up to a phase only
+            (exact_yes if ok else exact_no).append(name[len("C08_exact_"):])
+            if ok:
+                ctx.ob(name, True, "generated-kernel", "")
+                ctx.case(("table", name))
+            continue
         ctx.ob(name, ok, "generated-kernel", "" if ok else ("outside the symbolic fragment" if not sup else "stage-1 evaluation is false"))
         ctx.case(("table", name))
+    ctx.stats["classes_with_phase_exactly_one_kernel"] = sorted(exact_yes)
+    ctx.stats["classes_with_phase_not_proved_one"] = sorted(exact_no)
+    ctx.exact_classes = set(exact_yes)
     ctx.sample({"obligation": "C08_dec_CRY_gap", "meaning": "CRY(2,0,θ).decompose() run on a symbolic θ: ∀θ, product of the returned gates on 3 qubits = e^{iα}·CRY(2,0,θ), decided by `decide +kernel`"})
     return raised
 
@@ -1114,6 +1159,8 @@ def run(ctx):
     circuit_search(ctx)
     independence_search(ctx)
     fresh_search(ctx)
+    from props import C08_dispatch
+    C08_dispatch.run_suites(ctx)
     from props import basis_meas
     basis_meas.run(ctx, PROP, ['decompose'])
     ctx.trusted.append("the multi-controlled-X recursion is a hand model (QV/Model/XDecompose.lean) tied by exact gate-list equality with the real X.decompose for all m ≤ 7 (8 thorough), |free| ≤ m+1, permuted labels, both use_toffolis values, on every run")
